@@ -107,13 +107,15 @@ class PathEnumerator:
 
     def __init__(self, stmts: Sequence[ast.stmt], targets: Set[str], fork_all: bool = False,
                  max_paths: int = MAX_PATHS, track_calls: bool = False, also_fork_on: Callable[[ast.If], bool] = None,
-                 slice_deps: bool = True, prune: bool = True):
+                 slice_deps: bool = True, prune: bool = True, inline_calls: Callable[[ast.Call], Optional[List[ast.stmt]]] = None):
         self.stmts = list(stmts)
         self.max_paths = max_paths
         self.fork_all = fork_all
         self.track_calls = track_calls
         self.also_fork_on = also_fork_on
         self.prune = prune
+        self.inline_calls = inline_calls        # statement-level call -> the callee's body to walk in place (helper extraction)
+        self._inline_depth = 0
         self.dep_filter = (lambda k: '.' not in k) if slice_deps == 'locals' else None
         self.relevant = self._slice(set(targets)) if slice_deps else set(targets)
         self._assigned_anywhere = assigned_keys(self.stmts)
@@ -154,6 +156,13 @@ class PathEnumerator:
     def _touches(self, stmts: Sequence[ast.stmt]) -> bool:
         if assigned_keys(stmts) & self.relevant:
             return True
+        if self.inline_calls is not None:
+            for st in stmts:
+                for n in ast.walk(st):
+                    if isinstance(n, ast.Expr) and isinstance(n.value, ast.Call):
+                        b = self.inline_calls(n.value)
+                        if b is not None and assigned_keys(b) & self.relevant:
+                            return True
         for st in stmts:
             for n in ast.walk(st):
                 if isinstance(n, (ast.Return, ast.Raise)):
@@ -218,12 +227,27 @@ class PathEnumerator:
                 live = self._walk(st.orelse, live, done)
                 live = self._walk(st.finalbody, live, done)
             elif isinstance(st, ast.Expr):
+                if isinstance(st.value, ast.Call) and self.inline_calls is not None and self._inline_depth < 3:
+                    body = self.inline_calls(st.value)
+                    if body is not None:
+                        self._inline_depth += 1
+                        try:
+                            live = self._walk(body, live, done)
+                        finally:
+                            self._inline_depth -= 1
+                        continue
                 if self.track_calls and isinstance(st.value, ast.Call):
                     for p in live:
                         p.calls.append(st.value)
                 continue
+            elif isinstance(st, (ast.Continue, ast.Break)):
+                # inside an enumerated loop body the iteration (or the loop) ends here
+                for p in live:
+                    p.ended = 'continue' if isinstance(st, ast.Continue) else 'break'
+                    done.append(p)
+                live = []
             elif isinstance(st, (ast.Pass, ast.Import, ast.ImportFrom, ast.Global, ast.Nonlocal, ast.FunctionDef,
-                                 ast.ClassDef, ast.Assert, ast.Delete, ast.Continue, ast.Break)):
+                                 ast.ClassDef, ast.Assert, ast.Delete)):
                 continue
             else:
                 raise AnalysisError(f'unsupported statement {type(st).__name__} at line {st.lineno}')
